@@ -41,7 +41,7 @@ const (
 	c8ifElse    // if int(x) > 500 {A} else {B}
 	c8ifInit    // if x := K; x > 0 {A}
 	c8ifInitEl  // if x := K; x < 0 {A} else {B}
-	c8forX      // for x := 0; x < 1; x++ {A}
+	c8forX      // for x := 0; x < 2; x++ {A}
 	c8for2      // for i := 0; i < 2; i++ {A}
 	c8rangeX    // for _, x := range two {A}
 	c8rangeXY   // for x, y := range two {A}
@@ -218,7 +218,7 @@ func (w *c8render) stmt(s *c8stmt, ind string) {
 		w.block(s.blocks[1], in)
 		p("}")
 	case c8forX:
-		p("for x := 0; x < 1; x++ {")
+		p("for x := 0; x < 2; x++ {")
 		w.block(s.blocks[0], in)
 		p("}")
 	case c8for2:
@@ -381,7 +381,7 @@ func (it *c8interp) stmt(s *c8stmt, base int, e *c8env) {
 		sc := e.child()
 		x := &c8var{}
 		sc.vars["x"] = x
-		for n := 0; x.v < 1 && n < 10; n++ {
+		for n := 0; x.v < 2 && n < 10; n++ {
 			it.block(s.blocks[0], base, sc.child())
 			x.set(x.v + 1)
 		}
